@@ -161,12 +161,12 @@ impl Monitor for C14 {
     }
     fn gens(&self, tier: Tier) -> Vec<(&'static str, u64)> {
         match tier {
-            Tier::Quick => vec![("grid6", 216 * 3), ("random", 1500)],
-            Tier::Thorough => vec![("grid6", 216 * 3), ("grid8", 512 * 3), ("random", 30_000)],
+            Tier::Quick => vec![("grid6", 216 * 3), ("random", 1500), ("large", 96)],
+            Tier::Thorough => vec![("grid6", 216 * 3), ("grid8", 512 * 3), ("random", 30_000), ("large", 1500)],
         }
     }
     fn rule(&self) -> &'static str {
-        "grid: case = (source shape c x h x w in 1..D^3, content kind in {index-valued, random, special values}); every case runs Tensor::triple, flatten, get_flat, single, get_triple and reshape towards every target in 1..D^3, every factorisation of the element count, and (1,1,k)-style targets with k in {n-1, n, n+1, 2n}: equal-count targets must preserve the bit-exact row-major sequence, record a shape that matches the nesting, and round-trip to the identity; unequal-count targets (3D->3D, vector->3D, 3D->vector) must be refused by panic. random: source dims up to 12."
+        "grid: case = (source shape c x h x w in 1..D^3, content kind in {index-valued, random, special values}); every case runs Tensor::triple, flatten, get_flat, single, get_triple and reshape towards every target in 1..D^3, every factorisation of the element count, and (1,1,k)-style targets with k in {n-1, n, n+1, 2n}: equal-count targets must preserve the bit-exact row-major sequence, record a shape that matches the nesting, and round-trip to the identity; unequal-count targets (3D->3D, vector->3D, 3D->vector) must be refused by panic. random: source dims up to 12. large: element counts {4095..4097, 8192, 16383..16385, 20000, 30030, 32768, 65536, 65537, 100000, 131072} in a random factorisation c x h x w (mostly non-square planes), same checks."
     }
     fn assumptions(&self) -> Vec<&'static str> {
         vec!["Single->Single reshape with a different length is outside the statement (vector<->3-D and 3-D<->3-D only)"]
@@ -186,8 +186,30 @@ impl Monitor for C14 {
                 let s = (idx / 3) as usize;
                 (1 + s / 64, 1 + (s / 8) % 8, 1 + s % 8, (idx % 3) as usize, 8)
             }
+            "large" => {
+                // element counts around the powers of two at which a parallel or blocked copy
+                // would switch on, in a random factorisation (mostly non-square planes)
+                let n = *rng.pick(&[4095usize, 4096, 4097, 8192, 16383, 16384, 16385, 20_000, 30_030, 32_768, 65_536, 65_537, 100_000, 131_072]);
+                let mut divs: Vec<usize> = (1..=n).filter(|d| n % d == 0).collect();
+                let c = *rng.pick(&divs);
+                divs = (1..=n / c).filter(|d| (n / c) % d == 0).collect();
+                let h = *rng.pick(&divs);
+                (c, h, n / c / h, (idx % 2) as usize, 2)
+            }
             _ => (rng.range(1, 12), rng.range(1, 12), rng.range(1, 12), rng.range(0, 2), 5),
         };
+        if gen == "large" {
+            let mut out = Out::new(String::new());
+            out.count("large_sources", 1);
+            out.cover("large_element_counts", (c * h * w).to_string());
+            if h != w {
+                out.count("large_sources_with_non_square_planes", 1);
+            }
+            let vals = contents(&mut rng, c * h * w, kind);
+            out.key = format!("large {}x{}x{} kind {}", c, h, w, kind);
+            check_source(c, h, w, maxd, &vals, &mut out);
+            return out;
+        }
         let vals = contents(&mut rng, c * h * w, kind);
         let mut out = Out::new(format!("{} {}x{}x{} kind {}", gen, c, h, w, kind));
         out.cover("source_shapes", format!("{}x{}x{}", c, h, w));
@@ -201,6 +223,7 @@ impl Monitor for C14 {
         let want = if tier == Tier::Thorough { 512 } else { 216 };
         agg.extra.push(("exhaustive".into(), J::Bool(agg.set_size("source_shapes") >= want)));
         agg.require(agg.set_size("source_shapes") >= want, "grid not covered".into());
+        agg.require(agg.count("large_sources_with_non_square_planes") >= 40, "too few large non-square sources".into());
         agg.require(agg.count("unequal_count_reshapes_that_must_be_refused") > 1000, "too few refusal cases".into());
     }
 }
